@@ -59,7 +59,19 @@ type Fault struct {
 	// Cancel, if set, is called instead of / in addition to returning Err (context
 	// cancellation during a call).
 	Cancel func()
+	// Gate, if set on a prepare fault, holds the call inside the driver until the gate is
+	// released (the call then proceeds normally) or the call's context is done (the call
+	// then fails with the context's error).
+	Gate *Gate
 }
+
+// Gate holds one driver call. Entered is closed when the call has arrived.
+type Gate struct {
+	Entered chan struct{}
+	Release chan struct{}
+}
+
+func NewGate() *Gate { return &Gate{Entered: make(chan struct{}), Release: make(chan struct{})} }
 
 // Script is the behaviour of a database.
 type Script struct {
@@ -199,7 +211,14 @@ func (c *conn) PrepareContext(ctx context.Context, q string) (driver.Stmt, error
 	id := c.s.nextStmt
 	c.s.mu.Unlock()
 	_, f := c.s.record(Event{Kind: "prepare", Conn: c.id, Stmt: id, SQL: q, Ctx: ctxInfo(ctx)})
-	if err := f.fire(); err != nil {
+	if f != nil && f.Gate != nil {
+		close(f.Gate.Entered)
+		select {
+		case <-f.Gate.Release:
+		case <-ctx.Done():
+			return nil, ctx.Err()
+		}
+	} else if err := f.fire(); err != nil {
 		return nil, err
 	}
 	c.s.mu.Lock()
